@@ -345,6 +345,49 @@ def predictions(ctx, b, model_exe, gen_file, exp_abs, snap):
     return dis
 
 
+def refout_predictions(ctx, b, model_exe, f, root):
+    """exppp's interface blocks (REFout): supplier groups, their order, and the items inside each group vs the model
+    (`refoutGroups`: DICTdo order of usedict/refdict, grouped through a dictionary keyed by the supplier's name)"""
+    dis = []
+    exp = os.path.join(root, "refout.exp")
+    wd = os.path.join(root, "refout")
+    os.makedirs(wd)
+    open(exp, "w").write(f.text())
+    r = subprocess.run([b.tool("exppp"), exp], cwd=wd, env=b.env(), capture_output=True)
+    if r.returncode != 0:
+        return dis
+    for c in f.schemas:
+        if not (c.uses or c.references):
+            continue
+        p = os.path.join(wd, c.name + ".exp")
+        if not os.path.exists(p):
+            continue
+        txt = open(p, errors="replace").read()
+        use, ref = [], []
+        for o, ds in c.uses.items():
+            for d, a in ds:
+                use.append((a or d.name, o.name, d.name + (f" AS {a}" if a else "")))
+        for o, ds in c.references.items():
+            for d in ds:
+                a = c.ref_alias.get((o, d.name))
+                ref.append((a or d.name, o.name, d.name + (f" AS {a}" if a else "")))
+        lines = [("refout " + " ".join(f"{k}:{sn}:{t.encode().hex()}" for k, sn, t in L_)).strip() for L_ in (use, ref)]
+        rc, out, err = G.run_driver(model_exe, lines)
+        if rc != 0 or len(out) != 2 or "bad-op" in out:
+            return [f"model driver on refout: rc={rc} {out[:2]}"]
+        for kind, o, decl in (("USE", out[0], use), ("REFERENCE", out[1], ref)):
+            pred = [(g.split(": ")[0], g.split(": ")[1].split(", ")) for g in o[2:].split(" | ") if ": " in g]
+            real = [(m.group(1), [re.sub(r"\s+", " ", x.strip()) for x in m.group(2).split(",")])
+                    for m in re.finditer(kind + r" FROM (\w+)\s*\(\s*(.*?)\);", txt, re.S)]
+            ctx.hist("predictions", f"exppp {kind} groups and items")
+            if pred != real:
+                dis.append(f"schema {c.name}: {kind} FROM blocks of exppp {real} vs model {pred}")
+            textual = [t for _, _, t in decl]
+            if [x for _, its in real for x in its] != textual:
+                ctx.hist("predictions", f"exppp {kind} items come in hash order, not in the order of the source text")
+    return dis
+
+
 # ---------------------------------------------------------------- one input file
 def examine(ctx, b, name, text, exp_src, cfgs, idx, gen_file=None, model_exe=None, tools=TOOLS):
     root = os.path.join(ctx.work, f"d{idx}")
@@ -495,12 +538,22 @@ def run(ctx):
         itf = SG.item_interfaces_file(nu, nr, ren)
         ctx.hist("features", "item-wise USE/REFERENCE from several suppliers")
         examine(ctx, b, f"item-wise-interfaces-{nu}use-{nr}ref{'-renamed' if ren else ''}", itf.text(), None, cfgs, idx); idx += 1
+        rroot = os.path.join(ctx.work, f"ro{j}")
+        os.makedirs(rroot)
+        for d in refout_predictions(ctx, b, model_exe, itf, rroot):
+            ctx._disagree.append((f"item-wise-interfaces-{nu}-{nr}", d))
+        shutil.rmtree(rroot, ignore_errors=True)
     if not quick:
         for j in range(6):
             r = ctx.rng
             nm = r.sample(["alpha", "beta", "gamma", "delta", "kappa", "omega", "sigma", "theta", "zeta", "lambda_s"], 6)
             itf = SG.item_interfaces_file(r.randint(2, 3), r.randint(2, 3), r.random() < 0.5, names=[f"{x}_supplier" for x in nm])
             examine(ctx, b, f"item-wise-interfaces-random-{j}", itf.text(), None, cfgs, idx); idx += 1
+            rroot = os.path.join(ctx.work, f"ror{j}")
+            os.makedirs(rroot)
+            for d in refout_predictions(ctx, b, model_exe, itf, rroot):
+                ctx._disagree.append((f"item-wise-interfaces-random-{j}", d))
+            shutil.rmtree(rroot, ignore_errors=True)
     n_gen = 8 if quick else 100
     for i in range(n_gen):
         r = ctx.rng
